@@ -267,6 +267,8 @@ func runC12(c *Ctx) {
 	R.Extra["config_atoms"] = atoms
 	R.Ob("(*Conn).handleGreet/truth table over all configurations", c.P.Pos(f.Pos()), nDis == 0 && nCfg > 0, fmt.Sprintf("%d disagreements over %d configurations, first: %s", nDis, nCfg, firstDis))
 
+	ruleAuthAllowedDef(c) // the table's atom authAllowed() must mean "TLS or AllowInsecureAuth"
+
 	R.Rule("R-caps-reply", "E3+E4", "the capability list is sent only for EHLO/LHLO; HELO's reply carries the greeting text only", 2)
 	for _, site := range s.Find(f, "reply:250") {
 		cc := callCommon(site)
